@@ -255,6 +255,16 @@ func (h *NFSProcedureHandler) handleRename(body io.Reader, reply *RPCReply, auth
 		return nfsErrorWithDoubleWcc(reply, NFSERR_STALE), nil
 	}
 
+	// Both handles must name directories (a symbolic link to one is not followed)
+	for _, d := range []*NFSNode{srcDir, dstDir} {
+		d.mu.RLock()
+		isDir := d.attrs != nil && d.attrs.Mode&os.ModeDir != 0
+		d.mu.RUnlock()
+		if !isDir {
+			return nfsErrorWithDoubleWcc(reply, NFSERR_NOTDIR), nil
+		}
+	}
+
 	// R23: Return NFS error instead of nil,err
 	srcDirPreAttrs, err := h.server.handler.GetAttr(srcDir)
 	if err != nil {
